@@ -694,10 +694,14 @@ pub struct FullDevice {
     pub lens: Vec<usize>,
     pub append_mode: bool,
     pub rolling: bool,
+    /// (rolling) the size limit is 10 bytes, so that every record is one that would fire the trigger - the failure of
+    /// the record's own flush comes first all the same
+    #[serde(default)]
+    pub small_limit: bool,
 }
 
 pub fn full_strategy() -> impl Strategy<Value = FullDevice> {
-    (prop::collection::vec(prop_oneof![0usize..40, 900usize..1200, 3000usize..3100], 1..=6), prop::bool::ANY, prop::bool::ANY).prop_map(|(lens, append_mode, rolling)| FullDevice { lens, append_mode, rolling })
+    (prop::collection::vec(prop_oneof![0usize..40, 900usize..1200, 3000usize..3100], 1..=6), prop::bool::ANY, prop::bool::ANY, prop::bool::ANY).prop_map(|(lens, append_mode, rolling, small_limit)| FullDevice { lens, append_mode, rolling, small_limit })
 }
 
 pub fn check_full(tmp: &Path, c: &FullDevice, obs: &mut Obs) -> CaseResult {
@@ -711,7 +715,7 @@ pub fn check_full(tmp: &Path, c: &FullDevice, obs: &mut Obs) -> CaseResult {
     std::os::unix::fs::symlink("/dev/full", &link).unwrap();
     let dev = link.as_path();
     let app: Box<dyn Append> = if c.rolling {
-        let policy = make_policy(&dir, &TrigSpec::Size(1 << 40), &RollSpec::Delete).unwrap();
+        let policy = make_policy(&dir, &TrigSpec::Size(if c.small_limit { 10 } else { 1 << 40 }), &RollSpec::Delete).unwrap();
         match build_appender(dev, c.append_mode, &None, policy) {
             Ok(a) => Box::new(a),
             Err(_) => {
@@ -747,7 +751,7 @@ pub fn check_full(tmp: &Path, c: &FullDevice, obs: &mut Obs) -> CaseResult {
     }
     let _ = std::fs::remove_dir_all(&dir);
     obs.nontrivial = true;
-    obs.class(if c.rolling { "full-device:rolling_file" } else { "full-device:file" });
+    obs.class(if c.rolling && c.small_limit { "full-device:rolling_file(every record fires the trigger)" } else if c.rolling { "full-device:rolling_file" } else { "full-device:file" });
     r
 }
 
